@@ -172,6 +172,53 @@ pub fn generate(thorough: bool) -> Vec<Dup> {
         }
     }
 
+    // ---- 2b. parameter names are case-sensitive: a differently-cased look-alike is another parameter and
+    //          never competes with the real one, wherever it stands (each arrangement is run repeatedly, so a
+    //          choice that depends on hash-map iteration order shows up)
+    for key in ["Credential", "SignedHeaders", "Signature"] {
+        for variant in [key.to_lowercase(), key.to_uppercase()] {
+            for before in [true, false] {
+                let plan = e2e::base_plan(Carrier::Header);
+                let built = build(&plan);
+                let mut w = WireReq::from_wire(&built.wire);
+                let (c, sh, s) = auth_fields(&w);
+                let decoy_val = match key {
+                    "Credential" => c.replace("AKIDEXAMPLE", "AKIDOTHER"),
+                    "SignedHeaders" => "host".to_string(),
+                    _ => "0".repeat(64),
+                };
+                let real = format!("Credential={}, SignedHeaders={}, Signature={}", c, sh, s);
+                let decoy = format!("{}={}", variant, decoy_val);
+                let text = if before { format!("AWS4-HMAC-SHA256 {}, {}", decoy, real) } else { format!("AWS4-HMAC-SHA256 {}, {}", real, decoy) };
+                set_header(&mut w, "authorization", text.into_bytes());
+                for rep in 0..24 {
+                    out.push(Dup {
+                        label: format!("look-alike parameter {} {} the real ones (run {})", variant, if before { "before" } else { "after" }, rep),
+                        wire: w.clone(),
+                        cfg: cfg.clone(),
+                        expect_ok: true,
+                        expect_ask: Some((e2e::ACCESS_KEY.into(), None)),
+                        expect_both_carriers: false,
+                    });
+                }
+            }
+        }
+        // only the look-alike, no real parameter: that parameter is missing
+        let plan = e2e::base_plan(Carrier::Header);
+        let built = build(&plan);
+        let mut w = WireReq::from_wire(&built.wire);
+        let a = String::from_utf8_lossy(&w.headers.iter().find(|h| h.0 == "Authorization").unwrap().1).to_string();
+        set_header(&mut w, "authorization", a.replace(&format!("{}=", key), &format!("{}=", key.to_lowercase())).into_bytes());
+        out.push(Dup {
+            label: format!("only a lower-case {} parameter", key),
+            wire: w,
+            cfg: cfg.clone(),
+            expect_ok: false,
+            expect_ask: None,
+            expect_both_carriers: false,
+        });
+    }
+
     // ---- 3. X-Amz-Date header repeated: the first one counts (all values are in the canonical line)
     let other_instants = [Instant::new(now.secs - 1, 0), Instant::new(now.secs + 60, 0), Instant::new(now.secs - 86400, 0)];
     for (n, k) in nk() {
@@ -557,7 +604,7 @@ pub fn run(ctx: &Ctx) -> Report {
     });
     Report {
         stats: st,
-        rule: "for each duplicable input — Authorization header (4 decoy kinds, with/without interleaved headers); Credential / SignedHeaders / Signature inside it (2 separators); X-Amz-Date header (signed or not); X-Amz-Date vs Date in both orders; X-Amz-Security-Token header; query X-Amz-Algorithm / -Credential / -Date / -SignedHeaders / -Security-Token (adjacent or spread) and X-Amz-Signature — 2 or 3 occurrences with differing values and the single valid value at every position; the request is signed as received (all values in the canonical form) with the valid occurrence's data, so it validates iff the documented rule selects that occurrence; each X-Amz-* parameter once in the URL and once in a folded form body (valid one in either place, body with fewer or more names than the URL); plus Authorization together with X-Amz-Algorithm (3 values) in the URL, in a folded body and as a complete second authentication; thorough adds all pairs of duplicated date x token. Oracle: generator's expectation (independent of the reference verifier, and cross-checked against it), error kind and provider identity. states = (stage, identity seen by provider)".into(),
+        rule: "for each duplicable input — Authorization header (4 decoy kinds, with/without interleaved headers); Credential / SignedHeaders / Signature inside it (2 separators), and differently-cased look-alikes of those names before/after the real ones (24 runs each); X-Amz-Date header (signed or not); X-Amz-Date vs Date in both orders; X-Amz-Security-Token header; query X-Amz-Algorithm / -Credential / -Date / -SignedHeaders / -Security-Token (adjacent or spread) and X-Amz-Signature — 2 or 3 occurrences with differing values and the single valid value at every position; the request is signed as received (all values in the canonical form) with the valid occurrence's data, so it validates iff the documented rule selects that occurrence; each X-Amz-* parameter once in the URL and once in a folded form body (valid one in either place, body with fewer or more names than the URL); plus Authorization together with X-Amz-Algorithm (3 values) in the URL, in a folded body and as a complete second authentication; thorough adds all pairs of duplicated date x token. Oracle: generator's expectation (independent of the reference verifier, and cross-checked against it), error kind and provider identity. states = (stage, identity seen by provider)".into(),
         bounds: json!({"cases": n, "occurrences": [2, 3]}),
         exhaustive: true,
         assumptions: vec![],
